@@ -125,7 +125,8 @@ func c10() {
 		}
 		if strace {
 			for _, sc := range res.Strace {
-				if sc.Name == "seccomp" && len(sc.Args) > 1 && sc.Args[0] == 1 {
+				// only the loader's call: a thread that carries a filter of its own made a call of its own earlier
+				if sc.Name == "seccomp" && len(sc.Args) > 1 && sc.Args[0] == 1 && fmt.Sprint(sc.Tid) == fmt.Sprint(jsonU64(l["loader_tid"])) {
 					run.Count("flag_words_seen_at_syscall_boundary", 1)
 					if uint32(sc.Args[1]) != flags {
 						run.Violation("flags-modified-at-syscall", fmt.Sprintf("%s: Filter.Flag=%#x but the kernel received %#x", desc, flags, sc.Args[1]), replay)
